@@ -100,6 +100,8 @@ impl InnerWalWriter {
             "Rotating WAL log file"
         );
         self.flush_and_close()?;
+        #[cfg(sneldb_verif)]
+        crate::verif_hooks::step("wal.rotate_closed");
         self.current_log_id += 1;
         self.start_next_log_file()
     }
